@@ -98,6 +98,12 @@ impl<Out: ExchangeData, Item: ExchangeData> SideReceiver<Out, Item> {
         self.missing_terminate == 0
     }
 
+    /// Some (but maybe not all) of the previous replicas have already sent `Terminate`: no new
+    /// iteration will start.
+    fn is_terminating(&self) -> bool {
+        self.missing_terminate < self.instances
+    }
+
     /// All the cached items have already been read.
     fn cache_finished(&self) -> bool {
         self.cache_pointer >= self.cache.len()
@@ -249,10 +255,18 @@ impl<OutL: ExchangeData, OutR: ExchangeData> BinaryStartReceiver<OutL, OutR> {
                 self.first_message = false;
             }
             data
-        } else if self.left.cached && self.left.cache_full && !self.left.cache_finished() {
+        } else if self.left.cached
+            && self.left.cache_full
+            && !self.left.cache_finished()
+            && !self.right.is_terminating()
+        {
             // The left side is cached, therefore we can access it immediately
             return Ok(self.left.next_cached_item());
-        } else if self.right.cached && self.right.cache_full && !self.right.cache_finished() {
+        } else if self.right.cached
+            && self.right.cache_full
+            && !self.right.cache_finished()
+            && !self.left.is_terminating()
+        {
             // The right side is cached, therefore we can access it immediately
             return Ok(self.right.next_cached_item());
         } else if self.left.is_ended() {
